@@ -635,6 +635,20 @@ class ExecGen(ProgGen):
             return self.gen_index_macro()
         if self.elems and rng.random() < self.p["p_reg_macro"]:
             return self.gen_reg_macro()
+        if self.macro_info and rng.random() < self.p.get("p_forward", 0.12):
+            # a macro that only hands its parameters on to an earlier macro, in a block of either kind
+            inner = rng.choice(sorted(self.macro_info))
+            mq, mf = self.macro_info[inner]
+            name = self.fresh(MACRO_NAMES, "mc")
+            names = []
+            for _ in range(mq + mf):
+                names.append(rng.choice([n for n in PARAM_NAMES if n not in names][:6]))
+            qs = names[:mq]
+            rng.shuffle(qs)
+            kind = "parallel_block" if rng.random() < 0.5 else "sequential_block"
+            self.macro_info[name] = (mq, mf)
+            self.macros[name] = ["q"] * mq + ["num"] * mf
+            return ("macro", name) + tuple(names) + ((kind, ("gate", inner) + tuple(qs) + tuple(names[mq:])),)
         name = self.fresh(MACRO_NAMES, "mc")
         nqp = rng.choice([1, 1, 2, 2, 3])
         nqp = min(nqp, self.regsize)
